@@ -70,6 +70,10 @@ func c02Job(id int, text, mode string, ms metaSetting, delivery string) harness.
 		for _, r := range text {
 			ans = append(ans, Key(string(r)))
 		}
+	case "byte":
+		for i := 0; i < len(text); i++ {
+			ans = append(ans, harness.Answer{Bytes: []byte{text[i]}})
+		}
 	}
 	ans = append(ans, Key("\r"))
 	return harness.Job{
@@ -208,9 +212,9 @@ func runC02(c *Ctx) {
 			texts = append(texts, string(r), "x"+string(r)+"y")
 		}
 	}
-	c.Rule = fmt.Sprintf("all strings of length <= %d over %d runes %q x {emacs,vi-insert} x 3 meta settings x {one chunk, one rune per read} + Enter; oracle applied to ASCII-only strings under every setting and to non-ASCII strings under convert-meta off; non-trivial = distinct non-empty typed string for which the oracle applied", L, len(c02Alphabet), c02Alphabet)
-	c.Bounds = map[string]any{"max_len": L, "alphabet": c02Alphabet, "modes": []string{"emacs", "vi-insert"}, "meta": []string{"default", "convert-meta-off", "utf8-usual"}, "delivery": []string{"chunk", "rune"}}
-	c.Assumptions = []string{"terminal delivers each character as whole UTF-8 sequences (mid-sequence cuts are C05's subject)", "non-ASCII oracle scoped to convert-meta off as the statement says"}
+	c.Rule = fmt.Sprintf("all strings of length <= %d over %d runes %q x {emacs,vi-insert} x 3 meta settings x {one chunk, one rune per read, one BYTE per read (non-ASCII)} + Enter; oracle applied to ASCII-only strings under every setting and to non-ASCII strings under convert-meta off; non-trivial = distinct non-empty typed string for which the oracle applied", L, len(c02Alphabet), c02Alphabet)
+	c.Bounds = map[string]any{"max_len": L, "alphabet": c02Alphabet, "modes": []string{"emacs", "vi-insert"}, "meta": []string{"default", "convert-meta-off", "utf8-usual"}, "delivery": []string{"chunk", "rune", "byte"}}
+	c.Assumptions = []string{"non-ASCII oracle scoped to convert-meta off as the statement says"}
 
 	type meta struct {
 		text, mode, delivery string
@@ -230,9 +234,12 @@ func runC02(c *Ctx) {
 					// output-meta on, so this range is only judged there.
 					continue
 				}
-				for _, d := range []string{"chunk", "rune"} {
+				for _, d := range []string{"chunk", "rune", "byte"} {
 					if d == "rune" && utf8.RuneCountInString(text) < 2 {
 						continue
+					}
+					if d == "byte" && isASCII(text) {
+						continue // same as "rune"
 					}
 					jobs = append(jobs, c02Job(len(jobs), text, mode, ms, d))
 					metas = append(metas, meta{text, mode, d, ms})
